@@ -358,6 +358,12 @@ int main(int argc, char** argv) {
                         violation("C01", std::string("enabled action threw: ") + ex.what(), ukey, act + " " + what);
                         return;
                     }
+                    {
+                        double nrm = 0;
+                        for (auto& amp : V.verifState()) nrm += std::norm(amp);
+                        if (!(std::abs(nrm - 1.0) < 1e-7))
+                            violation("C03", "after " + std::to_string(reps * ds.size()) + " gates the state has norm^2 = " + std::to_string(nrm), ukey, act + " " + what);
+                    }
                     double err = 0;
                     if (!sameUpToPhase(V.verifState(), vecOf(t), err) && !(err < tol))
                         violation("C01", "rotation applied in parts does not compose to the whole rotation (err=" +
@@ -373,7 +379,7 @@ int main(int argc, char** argv) {
                 else
                     parts({theta + 3e-8, -3e-8}, 1, "as R(theta+3e-8) then R(-3e-8)", 0);
                 if (rotSeen % 1499 == 0)
-                    parts({theta / 1000}, 1000, "as 1000 equal parts", 0);
+                    parts({theta / 1100}, 1100, "as 1100 equal parts", 0);
                 static std::map<std::string, int> longRuns;
                 if (!g_log && (k == 1 || k == 2) && longRuns[a + std::to_string(k)]++ < 2)
                     parts({theta / 2000000}, 2000000, "as 2000000 equal parts", 1e-7);
@@ -417,6 +423,13 @@ int main(int argc, char** argv) {
                     return;
                 }
                 double err;
+                {
+                    // C03: whatever else is wrong with it, the state after a measurement is a unit vector
+                    double nrm = 0;
+                    for (auto& a : V.verifState()) nrm += std::norm(a);
+                    if (!(std::abs(nrm - 1.0) < 1e-9))
+                        violation("C03", "after measure (outcome " + std::to_string(o) + ", draw " + std::to_string(r) + "): norm^2 = " + std::to_string(nrm), ukey, act);
+                }
                 if (!sameUpToPhase(V.verifState(), unnorm ? vecOfNormalised(*f->second) : vecOf(*f->second), err))
                     violation("C02", "collapsed state is not the normalised projection (err=" +
                                          std::to_string(err) + ", outcome " + std::to_string(o) + ")",
